@@ -170,7 +170,7 @@ pub fn run(cx: &mut Cx) {
     let n_matrix = (EXPRS.len() + STMTS.len()) as u64;
     // (F) references that exist when first registered and vanish when their provider is replaced
     let n_repl = (POSITIONS.len() + 3) as u64;
-    let total = n_ref + n_depth + n_crash + n_matrix + n_repl + cx.total(2000, 250_000);
+    let total = n_ref + n_depth + n_crash + n_matrix + n_repl + cx.total(2000, 40_000);
     let dump = cx.dump;
     for case in cx.my_cases(total) {
         let mut rng = cx.rng(case);
